@@ -28,6 +28,16 @@ pub(super) fn run_write(invocation: ToolInvocation, config: &BuiltinToolConfig) 
         Err(err) => return ToolOutput::failure(vec![err]),
     };
 
+    // "", "." or "./" resolve to the workspace root itself: there is no file to write, and the
+    // sibling temp file of an atomic write would land next to (outside) the root.
+    if path
+        .strip_prefix(&config.workspace_root)
+        .map(|rel| rel.as_os_str().is_empty())
+        .unwrap_or(false)
+    {
+        return ToolOutput::failure(vec!["path must name a file inside the workspace".to_string()]);
+    }
+
     let create = args.create.unwrap_or(true);
     let append = args.append.unwrap_or(false);
     let atomic = args.atomic.unwrap_or(true);
